@@ -214,6 +214,8 @@ class Output(Formatter):
 
         section = SectionOutput(self._stream, self._section_outputs, self._formatter)
         section.indent(self._indent)
+        section.set_quiet(self._quiet)
+        section.set_verbosity(self._verbosity)
 
         return section
 
